@@ -20,6 +20,8 @@ from __future__ import annotations
 
 import copy
 import itertools
+import os
+import pathlib
 
 from harness import common
 
@@ -462,6 +464,99 @@ def set_display_probe(cx: Ctx):
                         rows.add((is_file, tuple(code(w) for w in parent), tuple(code(w) for w in md),
                                   tuple(code(w) for w in o.display), o.display is inherited))
     return sorted(rows), subjects
+
+
+def template_env():
+    """FORD's own Jinja2 environment (filters, tests, globals of `ford.output`) with the loader
+    `Documentation.__init__` would install, as an overlay: the shared environment is left alone"""
+    import jinja2
+
+    import ford.output as out
+
+    return out.env.overlay(loader=jinja2.FileSystemLoader([str(out.loc / "templates")]))
+
+
+def name_cell(html, tb_name):
+    """what `bound_declaration` printed as the name of the binding: -> (kind, href | None)"""
+    from bs4 import BeautifulSoup
+
+    strong = BeautifulSoup(html, "html.parser").find("strong")
+    if strong is None:
+        return "no-name", None
+    a = strong.find("a")
+    if a is None:
+        return ("name" if strong.get_text().strip() == tb_name else "other-text"), None
+    return "link", a.get("href")
+
+
+def bound_decl_probe(cx: Ctx):
+    """The real macros `type_summary` (site `summary`: the card of a type on the page of its module / program /
+    procedure / block data unit) and `bound_info` (site `info`: the type's own page) of `macros.html`, rendered by
+    FORD's Jinja2 environment on the real, correlated types of the probe project (`pt1` extends `pt0` and inherits
+    `b0pub`; `b1` is its own), for every combination of `tb.visible`, `visible` of the type that declares the
+    binding, and `external_url` set / absent.
+    -> rows [(site, inherited, tb visible, declaring type visible, external, name | link:declaring-type-page |
+              link:carrier-page | link:external | link:other)]"""
+    proj = cx.parse()
+    with common.quiet():
+        proj.correlate()
+    types = {t.name: t for f in proj.files for m in f.modules for t in m.types}
+    carrier, base = types["pt1"], types["pt0"]
+    env = template_env()
+    out_dir = pathlib.Path("/ford-verif-probe-out")  # never touched: URLs are only compared
+    page_url = out_dir / "module" / "pm.html"
+    own_page = out_dir / "type" / "pt1.html"
+    rows = []
+    for site in ("summary", "info"):
+        mod = env.get_template("macros.html").make_module({"page_url": page_url if site == "summary" else own_page})
+        for inherited in (False, True):
+            name = "b0pub" if inherited else "b1"
+            orig = next(b for b in carrier.boundprocs if b.name == name)
+            if (orig.parent is base) is not inherited:
+                cx.anomalies.append(f"bound_decl_probe: {name} is declared in {orig.parent.name}")
+            for tbv, dv, ext in itertools.product((True, False), repeat=3):
+                t = copy.copy(carrier)
+                decl = copy.copy(base) if inherited else t
+                decl.visible = dv
+                if inherited:
+                    t.visible = True
+                    t.extends = decl
+                tb = copy.copy(orig)
+                tb.visible = tbv
+                tb.parent = decl
+                t.base_url = decl.base_url = tb.base_url = out_dir
+                if ext:
+                    tb.external_url = "http://external.invalid/type/x.html#boundprocedure-" + name
+                t.boundprocs = [tb]
+                t.variables, t.finalprocs, t.constructor = [], [], None
+                try:
+                    html = str(mod.type_summary(t)) if site == "summary" else str(mod.bound_info(tb))
+                except Exception as ex:  # noqa: BLE001
+                    cx.anomalies.append(f"bound_decl_probe: rendering raised {type(ex).__name__}: {ex}")
+                    continue
+                from bs4 import BeautifulSoup
+
+                # the cell of the binding (an entity that is not a link goes through `relurl` as a path: the
+                # name is then the last component)
+                cells = [st for st in BeautifulSoup(html, "html.parser").find_all("strong")
+                         if st.get_text().strip().split("/")[-1] == name]
+                if len(cells) != 1:
+                    cx.anomalies.append(f"bound_decl_probe: {len(cells)} name cells for {name} ({site})")
+                    continue
+                a = cells[0].find("a")
+                if a is None:
+                    out = "name"
+                else:
+                    href = a.get("href") or ""
+                    if href.startswith("http"):
+                        out = "link:external"
+                    else:
+                        here = "module" if site == "summary" else "type"
+                        tgt = os.path.normpath(os.path.join(here, href.split("#")[0]))
+                        out = ("link:declaring-type-page" if tgt == os.path.normpath(decl.get_url()) else
+                               "link:carrier-page" if tgt == os.path.normpath(t.get_url()) else "link:other")
+                rows.append((site, inherited, tbv, dv, ext, out))
+    return rows
 
 
 def should_display_probe(cx: Ctx):
